@@ -81,3 +81,47 @@ Proof.
   - apply andb_prop in H as [H1 H2]. apply orb_prop in Hd as [Hd|Hd]; auto.
   - auto.
 Qed.
+
+(* ------------------------------------------------------------------ *)
+(* first-character analysis: if [firstc r c = false], a match of r on an
+   input starting with c can only be the empty match *)
+Fixpoint firstc (r : rx) (c : N) : bool :=
+  match r with
+  | Eps | NotAhead _ | AtEnd => false
+  | Chr neg l => chr_ok neg l c
+  | Cat a b => firstc a c || (nullable a && firstc b c)
+  | Alt a b => firstc a c || firstc b c
+  | Star a => firstc a c
+  end.
+
+Lemma first_sound : forall r A c s (k : list N -> option A) x,
+  rmatch r (c :: s) k = Some x -> firstc r c = false ->
+  nullable r = true /\ k (c :: s) = Some x.
+Proof.
+  induction r as [|neg l|a IHa b IHb|a IHa b IHb|body IH|a IHa|]; intros A c s k x H Hf;
+    cbn [rmatch firstc nullable] in *.
+  - split; [reflexivity|exact H].
+  - rewrite Hf in H. discriminate.
+  - apply orb_false_iff in Hf as [Hfa Hfb].
+    apply IHa in H as [Na H]; [|exact Hfa]. rewrite Na in Hfb. cbn [andb] in Hfb.
+    apply IHb in H as [Nb H]; [|exact Hfb]. rewrite Na, Nb. split; [reflexivity|exact H].
+  - apply orb_false_iff in Hf as [Hfa Hfb].
+    destruct (rmatch a (c :: s) k) eqn:Ea.
+    + inversion H; subst. apply IHa in Ea as [Na Ea]; [|exact Hfa]. rewrite Na. split; [reflexivity|exact Ea].
+    + apply IHb in H as [Nb H]; [|exact Hfb]. rewrite Nb, orb_true_r. split; [reflexivity|exact H].
+  - split; [reflexivity|].
+    remember (length (c :: s)) as n eqn:Hn. clear Hn. revert H.
+    induction n as [|n IHn]; intros H; [exact H|].
+    match type of H with match ?m with _ => _ end = _ => destruct m eqn:Eb end.
+    + inversion H; subst. apply IH in Eb as [_ Eb]; [|exact Hf]. now apply IHn.
+    + exact H.
+  - destruct (rmatch a (c :: s) (fun _ => Some tt)); [discriminate|]. split; [reflexivity|exact H].
+  - destruct (at_end (c :: s)); [|discriminate]. split; [reflexivity|exact H].
+Qed.
+
+Corollary no_first_no_match r c s :
+  nullable r = false -> firstc r c = false -> match_prefix r (c :: s) = None.
+Proof.
+  intros Hn Hf. unfold match_prefix. destruct (rmatch r (c :: s) (fun s' => Some s')) eqn:E; [|reflexivity].
+  apply first_sound in E as [E _]; [congruence|exact Hf].
+Qed.
